@@ -172,6 +172,35 @@ func (e *Env) RenderScript(ps []Posting) string {
 	return sb.String()
 }
 
+// RenderScriptMeta renders the metadata a script sets itself, in a deterministic order.
+func RenderScriptMeta(op Op) string {
+	var sb strings.Builder
+	ks := make([]string, 0, len(op.SMeta))
+	for k := range op.SMeta {
+		ks = append(ks, k)
+	}
+	sort.Strings(ks)
+	for _, k := range ks {
+		fmt.Fprintf(&sb, "set_tx_meta(%q, %q)\n", k, op.SMeta[k])
+	}
+	as := make([]string, 0, len(op.SAMeta))
+	for a := range op.SAMeta {
+		as = append(as, a)
+	}
+	sort.Strings(as)
+	for _, a := range as {
+		ks = ks[:0]
+		for k := range op.SAMeta[a] {
+			ks = append(ks, k)
+		}
+		sort.Strings(ks)
+		for _, k := range ks {
+			fmt.Fprintf(&sb, "set_account_meta(@%s, %q, %q)\n", a, k, op.SAMeta[a][k])
+		}
+	}
+	return sb.String()
+}
+
 func rawNum(b *big.Int) json.RawMessage { return json.RawMessage(b.String()) }
 
 // Exec issues op against the real API and classifies the response.
@@ -192,7 +221,7 @@ func (e *Env) Exec(ctx context.Context, worker string, op Op) Res {
 	case "create":
 		body := map[string]any{}
 		if op.Script {
-			body["script"] = map[string]any{"plain": e.RenderScript(op.Ps), "vars": map[string]any{}}
+			body["script"] = map[string]any{"plain": e.RenderScript(op.Ps) + RenderScriptMeta(op), "vars": map[string]any{}}
 		} else {
 			ps := make([]any, 0, len(op.Ps))
 			force := false
